@@ -31,7 +31,7 @@ DIAG = {"cache_hits", "cache_misses", "cache_used", "cache_enabled", "cache_hit"
 KINDS = ["repeat", "other-agent", "edge-replace-same-count", "node-label-change", "episode-add", "apply", "kill-switch-turn", "cfg:k_retrieval", "cfg:ranking",
          "cfg:sim_threshold", "cfg:owner_scope", "cfg:now", "cfg:now-same-day", "cfg:residual_cap", "cfg:tiers", "cfg:exact_recent_days", "cfg:hybrid", "gel-edge-change",
          "cfg:t1.queue_budget", "cfg:t1.decay", "slice-cap", "switch-state", "node-add", "edge-add",
-         "switch-state-reordered", "text-variant"]
+         "switch-state-reordered", "text-variant", "episode-readd-same-id", "slice-cap-t1", "index-clear-refill", "cfg:perf-master-with-t1-caps"]
 
 
 def gen_history(rng, kind=None):
@@ -53,6 +53,9 @@ def gen_history(rng, kind=None):
     if kind in ("cfg:hybrid", "gel-edge-change"):
         base["t2"]["hybrid"] = {"enabled": kind == "gel-edge-change", "lambda_graph": 1.0, "edge_threshold": 0.0, "max_bonus": 10.0}
         base["t2"]["k_retrieval"] = 8
+    if kind == "cfg:perf-master-with-t1-caps":
+        base["perf"] = {"enabled": rng.random() < 0.5, "t1": {"caps": {"frontier": rng.choice([1, 2]), "visited": rng.choice([1, 2, 100])}, "dedupe_window": rng.choice([1, 4])}}
+        variant = "lru"
     if kind == "cfg:now-same-day":
         # episodes stamped around the edge of a one-day recency window and later the same day: a clock change of a
         # few hours moves them in/out of the window and changes their recency score
@@ -145,6 +148,27 @@ def apply_mutation(m, envs, world2, cfgs, slice_holder):
             idx = st["mem_index"]
             tmp = build_index([{"id": f"epnew{m['i']}", "owner": "A", "text": "hello world moon river cat", "ts": "2023-11-14T00:00:00Z", "vec": "enc", "aux": {"importance": 1.0}}])
             idx.add(tmp._eps[0])
+        elif kind == "episode-readd-same-id":
+            # a memory is revised: an episode with an id that is already in the index is added again with another text / owner
+            from vlib.harness import build_index
+            idx = st["mem_index"]
+            if idx._eps:
+                old = idx._eps[m["i"] % len(idx._eps)]
+                tmp = build_index([{"id": old.get("id"), "owner": ("B" if old.get("owner") == "A" else "A"), "text": "hello world moon river cat revised", "ts": "2023-11-14T00:00:00Z",
+                                    "vec": "enc", "aux": {"importance": 1.0}}])
+                idx.add(tmp._eps[0])
+        elif kind == "index-clear-refill":
+            # the memory is wiped and refilled with as many (other) episodes: the index's own version counter repeats
+            from vlib.harness import build_index
+            idx = st["mem_index"]
+            n_ = len(idx._eps)
+            idx.clear()
+            tmp = build_index([{"id": f"re{m['i']}_{j}", "owner": "A", "text": f"hello world moon river cat refill {j}", "ts": "2023-11-14T00:00:00Z", "vec": "enc",
+                                "aux": {"importance": 0.5}} for j in range(n_)])
+            for e_ in tmp._eps:
+                idx.add(e_)
+        elif kind == "cfg:perf-master-with-t1-caps":
+            cfg["perf"]["enabled"] = not cfg["perf"]["enabled"]
         elif kind == "gel-edge-change":
             ge = st.setdefault("graph", {"nodes": {}, "edges": {}, "meta": {}})["edges"]
             ids = sorted({e["id"] for e in st["mem_index"]._eps})
@@ -180,6 +204,9 @@ def apply_mutation(m, envs, world2, cfgs, slice_holder):
         slice_holder["now_shift_days"] = (slice_holder.get("now_shift_days", 0) + 0.2) % 0.9   # +4.8 h steps inside one UTC day
     if kind == "slice-cap":
         slice_holder["t2_k"] = 0 if slice_holder.get("t2_k") is None else None
+    if kind == "slice-cap-t1":
+        # per-slice propagation budgets appear / change / disappear between the asks
+        slice_holder["t1"] = {0: {"t1_iters": 1}, 1: None, 2: {"t1_pops": 1}, 3: {"t1_iters": 2}, 4: {"t1_pops": 2, "t1_iters": 0}}[int(r * 5) % 5]
 
 
 def check_history(case, sess: Session):
@@ -198,7 +225,12 @@ def check_history(case, sess: Session):
     raw_t1 = case.get("raw_t1") or {}
     cfg_u = deep_merge(copy.deepcopy(case["cfg"]), off)
     if "perf" in cfg_u:
-        cfg_u["perf"] = {"enabled": True}  # same perf master switch, no byte caches
+        # same perf master switch and caps, no byte-bounded caches
+        cfg_u["perf"] = {k: copy.deepcopy(v) for k, v in cfg_u["perf"].items() if k not in ("t1", "t2")}
+        for st_ in ("t1", "t2"):
+            sub = {k: copy.deepcopy(v) for k, v in (case["cfg"]["perf"].get(st_) or {}).items() if k != "cache"}
+            if sub:
+                cfg_u["perf"][st_] = sub
     try:
         ec, eu = TurnEnv(cfg_c, copy.deepcopy(case["world"])), TurnEnv(cfg_u, copy.deepcopy(case["world"]))
     except Exception as ex:
@@ -303,6 +335,15 @@ def check_history(case, sess: Session):
                             env.cfg["scheduler"]["budgets"][k_] = None
                     elif kind == "slice-cap":
                         env.cfg["scheduler"]["enabled"] = False
+                    if kind == "slice-cap-t1":
+                        if holder.get("t1"):
+                            env.cfg["scheduler"]["enabled"] = True
+                            env.cfg["scheduler"]["quantum_ms"] = 10 ** 6
+                            env.cfg["scheduler"]["budgets"]["wall_ms"] = 10 ** 6
+                            for k_ in ("t1_pops", "t1_iters", "t3_ops", "t2_k"):
+                                env.cfg["scheduler"]["budgets"][k_] = holder["t1"].get(k_)
+                        else:
+                            env.cfg["scheduler"]["enabled"] = False
                     with patched(orch, "t1_propagate", t1w), patched(core, "make_plan_bundle", mpb):
                         r = env.run(op["agent"], op["text"], turn_no, now_ms=now_ms)
                     h1 = t2c._T2_CACHE.hits if isinstance(t2c._T2_CACHE, CountingCache) else 0
@@ -347,8 +388,10 @@ def check_history(case, sess: Session):
                     d2 = {"C": c["t2"] is not None, "U": u["t2"] is not None}
                 # owner leak check on what C used
                 if c["t2"] is not None and str(envs["C"][cur].cfg["t2"].get("owner_scope")) == "agent":
-                    owners = {str(e.get("id")): e.get("owner") for e in envs["C"][cur].state["mem_index"]._eps}
-                    leak = [x.id for x in c["t2"].retrieved if owners.get(x.id) is not None and owners.get(x.id) != op["agent"]]
+                    owners = {}
+                    for e in envs["C"][cur].state["mem_index"]._eps:  # an id may occur several times (revised memories)
+                        owners.setdefault(str(e.get("id")), set()).add(e.get("owner"))
+                    leak = [x.id for x in c["t2"].retrieved if owners.get(x.id) and None not in owners[x.id] and op["agent"] not in owners[x.id]]
                     if leak:
                         layer = "turn-level" if c["turn_hit"] else ("t2-stage" if c["t2_stage_hits"] else "no-hit")
                         sess.violation(f"{layer}:owner-scoped-memories-served-to-another-agent", tcase, {"agent": op["agent"], "leaked": leak[:4]})
@@ -388,7 +431,7 @@ def main(tier: str, seed: int):
     sess = Session(PID, tier, seed, level="exploration", rule=RULE)
     sess.assume("cache TTLs are not crossed inside a history (TTL expiry on the injected clock is C15's subject)")
     sess.assume("histories are class-pure (one mutation kind each) so that a difference is attributable to (cache layer, mutation kind)")
-    total = 150 if tier == "quick" else 30000
+    total = 420 if tier == "quick" else 30000
     nchunks = par.NWORK
     per = max(1, total // nchunks)
     for ex in par.pmap(_chunk, [(tier, seed, i, per) for i in range(nchunks)]):
